@@ -1346,12 +1346,19 @@ fn check_history(w: &World, hist: &[Sym], sched: SchedMode, faults: FaultMode, c
                 in_order_ok = false;
                 break;
             }
-            Ok(Err(e)) => {
-                res.push((format!("C10/replica/in-order/rejected/after={after}"), format!("in-order record #{} rejected: {e}", i + 1), json!({"layer": "replica"})));
+            // An `Err` of a one-record `run()` call is a rejection of the RECORD only if the record was not applied
+            // (the VERDICT is the state comparison; the replica's own "context of the last applied record" only
+            // chooses between the signatures "rejected" and, below, "diverged"):
+            // the statement is silent about a stream that simply stops after a record (an implementation may
+            // complain about a stream that ends without a final record - the harness delivers one record per
+            // call to see the state after every record). A record that leaves the state unchanged cannot be
+            // judged here; a rejection of the in-order stream as a whole is judged below (`rejected/whole-stream`).
+            Ok(Err(e)) if mgr.state_replica.context != t.context && !states_match(&states[i + 1], mgr.replica_engine_state()) => {
+                res.push((format!("C10/replica/in-order/rejected/after={after}"), format!("in-order record #{} rejected and not applied: {e}", i + 1), json!({"layer": "replica"})));
                 in_order_ok = false;
                 break;
             }
-            Ok(Ok(())) => {}
+            Ok(Err(_)) | Ok(Ok(())) => {}
         }
         let diffs = compare_states(&states[i + 1], mgr.replica_engine_state());
         if !diffs.is_empty() {
@@ -2010,11 +2017,12 @@ fn joint_step(w: &World, j: &Joint, sym: &Sym, out: &mut Vec<Viol>) -> Option<Jo
             out.push((format!("C10/replica/in-order/panicked/after={after}"), "StateReplicaManager::run panicked".into()));
             return None;
         }
-        Ok(Err(err)) => {
-            out.push((format!("C10/replica/in-order/rejected/after={after}"), format!("in-order record rejected: {err}")));
+        // (see `check_history`: an `Err` of a one-record call counts as a rejection only if the record was not applied)
+        Ok(Err(err)) if m.state_replica.context != tick.context && !states_match(&e.state, m.replica_engine_state()) => {
+            out.push((format!("C10/replica/in-order/rejected/after={after}"), format!("in-order record rejected and not applied: {err}")));
             return None;
         }
-        Ok(Ok(())) => {}
+        Ok(Err(_)) | Ok(Ok(())) => {}
     }
     let diffs = compare_states(&e.state, m.replica_engine_state());
     let diverged = !diffs.is_empty();
